@@ -53,6 +53,9 @@ Definition last3 {A} (os : list (out A)) : res (option A * option A * N) :=
 
 Definition q_one_nth (m : mode) (sv : sparse) (back : bool) (k n : N) : res (option (N * N) * option (N * N) * N) :=
   let* (_, os) := it_run (sp_oi_step m sv) (sv_one_iter sv) (calls back k n) in last3 os.
+(* j x next_back() first *)
+Definition q_one_nth_j (m : mode) (sv : sparse) (j k n : N) : res (option (N * N) * option (N * N) * N) :=
+  let* (_, os) := it_run (sp_oi_step m sv) (sv_one_iter sv) (repeat NextBack (small j) ++ calls false k n) in last3 os.
 (* ZeroIter is forward only *)
 Definition q_zero_nth (m : mode) (sv : sparse) (k n : N) : res (option (N * N) * option (N * N) * N) :=
   let* z := sv_zero_iter m sv in
